@@ -1013,11 +1013,11 @@ theorem louvainEmbedding_closed_form (n m : Nat) (a : Mat α) (labels : List Int
 
 /-- **C09 / LouvainEmbedding at fit level**: for any labels returned by Louvain, a successful `fit` yields
     `embedding_[i][c]` = share of the weight of row `i` carried by the columns whose label in `labels_` is `c`. -/
-theorem louvainEmbedding_fit (nRow nCol : Nat) (a : Mat α) (ln lr lc : List Nat) (which : Isolated)
-    {out : LouvainEmbOut α} (h : louvainEmbFit nRow nCol a ln lr lc which = .ok out)
+theorem louvainEmbedding_fit (nRow nCol : Nat) (a : Mat α) (fb : Bool) (ln lr lc : List Nat) (which : Isolated)
+    {out : LouvainEmbOut α} (h : louvainEmbFit nRow nCol a fb ln lr lc which = .ok out)
     (i c : Nat) (hi : i < nRow) (hc : c < membershipCols out.labels) :
     mget out.embedding i c = Spec.louvainEntry nCol a out.labels i c :=
-  louvainEmbFit_entry nRow nCol a ln lr lc which h i c hi hc
+  louvainEmbFit_entry nRow nCol a fb ln lr lc which h i c hi hc
 
 /-- **`reindex_labels(which='remove')`** (the default `isolated_nodes`): it always succeeds on a square input; node `v`
     gets label `-1` exactly when its Louvain cluster is a singleton, and two nodes that keep a label share the new label
@@ -1042,16 +1042,17 @@ theorem louvain_reindex_remove (labels : List Nat) :
   rw [hget v hv, hget w hw]
   exact this
 
-/-- **C09 / LouvainEmbedding, columns**: on a rectangular input `embedding_col_[j][c]` is the share of the weight of
+/-- **C09 / LouvainEmbedding, columns**: on a rectangular input, or a square one with `force_bipartite`, `embedding_col_[j][c]` is the share of the weight of
     column `j` carried by the rows whose label is `c`, for a labelling of the rows (the re-indexed secondary labels). -/
-theorem louvainEmbedding_fit_col (nRow nCol : Nat) (a : Mat α) (ln lr lc : List Nat) (which : Isolated)
-    {out : LouvainEmbOut α} (h : louvainEmbFit nRow nCol a ln lr lc which = .ok out) (hne : (nRow == nCol) = false) :
+theorem louvainEmbedding_fit_col (nRow nCol : Nat) (a : Mat α) (fb : Bool) (ln lr lc : List Nat) (which : Isolated)
+    {out : LouvainEmbOut α} (h : louvainEmbFit nRow nCol a fb ln lr lc which = .ok out)
+    (hne : (fb || nRow != nCol) = true) :
     ∃ labRow : List Int, ∃ ec, out.embeddingCol = some ec ∧
       ∀ j c, j < nCol → c < membershipCols labRow →
         mget ec j c = Spec.louvainEntry nRow (mkMat nCol nRow fun j i => mget a i j) labRow j c :=
-  louvainEmbFit_col nRow nCol a ln lr lc which h hne
+  louvainEmbFit_col nRow nCol a fb ln lr lc which h hne
 
-example : (louvainEmbFit 3 3 ([[0, 1, 1], [1, 0, 0], [1, 0, 0]] : Mat ℚ) [0, 0, 1] [] [] .remove).toOption.map
+example : (louvainEmbFit 3 3 ([[0, 1, 1], [1, 0, 0], [1, 0, 0]] : Mat ℚ) false [0, 0, 1] [] [] .remove).toOption.map
     (fun o => (o.labels, o.embedding)) = some ([0, 0, -1], [[1/2], [1], [1]]) := by decide +kernel
 
 example : mget (louvainProject 2 3 ([[1, 1, 2], [0, 0, 0]] : Mat ℚ) [0, 1, 1]) 0 1 = 3/4 := by decide +kernel
